@@ -179,7 +179,8 @@ CLAIMED = {
          'after every operation; the real ShiftCollider driven (initSlot, everything but a sliver at one end of one axis excluded, resolve) and its answer checked against the limit rectangle.  Oracle on the '
          'implementation: sortedness, bounds, excluded ranges, closest answers; collision fonts end to end under ASan/UBSan.',
     note='partial: the interval-set and limit clauses are proved (over integer coordinates; the arithmetic is affine/min so the reals behave alike, float rounding is outside).  The resolved-verdict clause '
-         '(no octabox overlap) and KernCollider are not modelled: exercised end to end on the Awami fonts under sanitizers only.  One known finding (zero-width zones).',
+         '(no octabox overlap) is decided by a geometric oracle on the real ShiftCollider (initSlot / mergeSlot / resolve over random glyph pairs and arrangements), not proved; KernCollider and the '
+         'sequence-order regions are exercised end to end on the Awami fonts under sanitizers only.  Two known findings (zero-width zones; reach test ignoring the target extent).',
     technique='Coq proof (sortedness/disjointness invariant over arbitrary op sequences, coverage monotonicity, exclusion permanence, refutation witness) over hand model + differential correspondence on the real class + oracle',
     design='6/C17'),
  'C18': dict(
